@@ -450,7 +450,8 @@ def phase_tracemeta(ctx, phase):
                                              if v["verdict"] in ("dtype", "export-dtype") else
                                              f"trace {e['tid']} step {v['step']} verb {e['verb']}: logged names {e['names']} part {e['part']} sql {e['sql']}; "
                                              f"CacheModel expects names {v.get('expected')}"),
-                                     moves=[dict(v=x["verb"], i=x["in"]) for x in t[: v["step"]] if x["verb"] != "source"], heap_obs=[],
+                                     moves=[dict(v=x["verb"], i=x["in"], **({"u64": True} if x.get("args", {}).get("u64") else {})) for x in t[: v["step"]] if x["verb"] != "source"],
+                                     heap_obs=[],
                                      beh=dict(trace=t[: v["step"]], verdict=v)))
     ctx.behaviours += len(traces) - (1 if canary_idx else 0)
     ctx.replay_stats["trace_events_validated"] = ctx.replay_stats.get("trace_events_validated", 0) + nev
